@@ -55,6 +55,7 @@ def probe(prop: str, cases: list[tuple[str, str, iltext.Body]], seeds: list[int]
     """cases: (id, ast_coq, body).  Returns {id: None | (flags, ndefined, None | (seed, kind))}"""
     files = {}
     ids = [c[0] for c in cases]
+    shard = max(6, min(shard, -(-len(cases) // common.NPROC)))
     for k in range(0, len(cases), shard):
         chunk = cases[k : k + shard]
         rows = ";\n".join(f"({a}, {b.coq()})" for _, a, b in chunk)
